@@ -17,7 +17,7 @@ LEVEL_TEXT = (
     "nothing else. For masks and permutations the claim is deliberately thin: IterMasks is implemented for exactly the 12 integer "
     "types, the steppers have the documented shape and contain no overflow assertion (wrapping ops), the chained sentinels are zero() "
     "and ones() = all-ones bytes, iter_permutations sorts first and the iterator yields the stored data first and then steps until "
-    "next_permutation returns false. That (s-1)&x enumerates all submasks and the correctness of next_permutation itself are NOT decided."
+    "next_permutation returns false. next_permutation's anatomy (rightmost ascent, last strictly-greater tail element, swap, tail reversal, wrap) is checked as a shape; that (s-1)&x enumerates all submasks is NOT decided."
 )
 LEVEL_NOTE = "trusted: rustc MIR, exporter, std array::IntoIter / filter / map / from_fn / chain preserve order"
 EXPLANATION = (
@@ -28,10 +28,12 @@ EXPLANATION = (
     "distinct entries. I5 bounds pairing: on the only true-returning path of each filter closure the facts are i+dx >= 0, i+dx < n, "
     "j+dy >= 0 and the result j+dy < m (any order) with i, n, j, m bound through the closure captures to the function's parameters "
     "(n, m, i, j); the map closure yields ((i+dx) as usize, (j+dy) as usize). I6 iter_permutations: sort() before the iterator is "
-    "built; next(): first -> clone of data; then next_permutation(&mut data) true -> Some(clone), false -> None. NOT decided: submask "
-    "enumeration completeness/order, next_permutation."
+    "built; next(): first -> clone of data; then next_permutation(&mut data) true -> Some(clone), false -> None. I7 next_permutation anatomy "
+    "(added after seeded change C15-a): outer loop i over (1..len).rev() with the ascent test data[i-1] < data[i]; partner j found by the "
+    "forward scan from i while j+1 < len && data[j+1] > data[i-1] (strict), swap(i-1, j), reverse data[i..], true; otherwise reverse all, "
+    "false. NOT decided: submask enumeration completeness/order."
 )
-UNDECIDED = ["(s-1)&x / (s+1)|x enumerate every sub/supermask exactly once in order", "next_permutation computes the lexicographic successor (with duplicates)"]
+UNDECIDED = ["(s-1)&x / (s+1)|x enumerate every sub/supermask exactly once in order", "next_permutation computes the lexicographic successor as a value statement (its pivot/partner/swap/reverse anatomy IS checked, rule I7)"]
 ASSUMPTIONS = []
 FIXTURES = [
     ("c15_bad_neighbours_nm_swapped", "bad", ["I5"]),
@@ -65,6 +67,7 @@ def check(col, prog, tier, profile, fixture=None):
     col.rule("I4", "offset tables equal the documented ordered lists", floor=3)
     col.rule("I5", "filter: 0 <= i+dx < n, 0 <= j+dy < m on the right coordinates; map yields (i+dx, j+dy)", floor=6)
     col.rule("I6", "iter_permutations sorts first; iterator yields data first then steps until false", floor=4)
+    col.rule("I7", "next_permutation anatomy: rightmost ascent, LAST tail element greater than the pivot, swap, reverse tail; wrap = reverse all, false", floor=4)
 
     # ---------------- I1
     tys = sorted(i["self_ty"] for i in crate.impls if (i.get("trait") or "").endswith("IterMasks"))
@@ -274,6 +277,7 @@ def check(col, prog, tier, profile, fixture=None):
             col.ok("I6", b.loc(), key, "data.sort(); PermutationIter { data, first: true }")
         else:
             col.violation("I6", key, b.loc(), "iter_permutations must sort the data before constructing the iterator with first = true: otherwise arrangements before the input's are skipped")
+    _next_permutation_anatomy(col, crate)
     nb = util.need_body(crate, "<permutations::PermutationIter<T> as std::iter::Iterator>::next")
     npb = util.need_body(crate, "permutations::next_permutation")
     I = util.analyse(nb)
@@ -306,3 +310,85 @@ def check(col, prog, tier, profile, fixture=None):
             col.ok("I6", nb.loc(), key, desc)
         else:
             col.violation("I6", key, nb.loc(), "PermutationIter::next: %s — not what the code does" % desc)
+
+
+def _next_permutation_anatomy(col, crate):
+    """pivot/swap/reverse with duplicates: the partner must be the last element of the (non-increasing)
+    tail that is strictly greater than the pivot — the leftmost of several equal candidates gives a
+    tail that is not sorted after the reversal and skips arrangements"""
+    fk = util.fkey
+    b = util.need_body(crate, "permutations::next_permutation")
+    I = util.analyse(b)
+    datap = ("deref", ("param", 1, I.names.get(1)))
+    LEN = ("len", ("load", ("m0",), datap))
+
+    def at(idx, t):
+        return t == ("ref", ("index", datap, idx))
+
+    ok_wrap = ok_swap = ok_scan = ok_outer = False
+    why = []
+    for st in I.final_states:
+        evs = [e for e in st.event_list() if e.kind == "call"]
+        ret = util.ret_term(st)
+        sw = [e for e in evs if e.extra.get("name") == "swap"]
+        rv = [e for e in evs if e.extra.get("name") == "reverse"]
+        if ret == mk_int(0):
+            ok_wrap = len(rv) == 1 and rv[0].args[0] == ("ref", datap) and not sw
+            if not ok_wrap:
+                why.append("the exhausted case must reverse the whole slice and return false")
+            continue
+        if ret != mk_int(1) or len(sw) != 1 or len(rv) != 1:
+            why.append("a stepping path must do exactly one swap and one tail reversal and return true")
+            continue
+        i_t = sw[0].args[1]
+        j_t = sw[0].args[2]
+        # pivot index is i-1 for the loop element i of (1..len).rev()
+        piv_ok = i_t[0] == "bin" and i_t[1] == "Sub" and i_t[3] == mk_int(1) and i_t[2][0] == "elem"
+        if not piv_ok:
+            why.append("swap's first index is %s, expected i-1" % tstr(i_t))
+            continue
+        i_el = i_t[2]
+        ok_outer = i_el[2] == mk_int(1) and i_el[3] == LEN and any(isinstance(v, tuple) and v and v[0] == "rangeiter" and v[3] == "rev" for v in st.env.values())
+        asc = any(f[0] == "eq" and f[2] == 1 and isinstance(f[1], tuple) and f[1][0] == "call" and str(f[1][1]).endswith("PartialOrd::lt") and at(i_t, f[1][2][0]) and at(i_el, f[1][2][1]) for f in st.facts)
+        tail = rv[0].args[0]
+        tail_ok = tail[0] == "ref" and tail[1][0] == "range" and tail[1][1] == datap and tail[1][2][0] == "agg" and tail[1][2][1][1].endswith("RangeFrom") and tail[1][2][2] == (i_el,)
+        ok_swap = asc and tail_ok and evs.index(sw[0]) < evs.index(rv[0])
+        if not ok_swap:
+            why.append("ascent test data[i-1] < data[i], swap, then reverse data[i..] expected")
+        # the partner: loop variable of a forward scan from i while data[j+1] > data[i-1]
+        if j_t[0] == "phi":
+            head, jl = j_t[1], j_t[2]
+            ent = [en.get(jl) for en in I.loop_entry.get(head, [])]
+            scan_from_i = bool(ent) and all(x == i_el for x in ent)
+            step_ok = False
+            for bs in I.backedge_states.get(head, []):
+                nj = bs.env.get(jl)
+                gt = any(f[0] == "eq" and f[2] == 1 and isinstance(f[1], tuple) and f[1][0] == "call" and str(f[1][1]).endswith("PartialOrd::gt") and at(("bin", "Add", j_t, mk_int(1)), f[1][2][0]) and at(i_t, f[1][2][1]) for f in bs.facts)
+                lt_rev = any(f[0] == "eq" and f[2] == 1 and isinstance(f[1], tuple) and f[1][0] == "call" and str(f[1][1]).endswith("PartialOrd::lt") and at(i_t, f[1][2][0]) and at(("bin", "Add", j_t, mk_int(1)), f[1][2][1]) for f in bs.facts)
+                inb = any(f[0] == "eq" and f[2] == 1 and f[1] == ("bin", "Lt", ("bin", "Add", j_t, mk_int(1)), LEN) for f in bs.facts)
+                step_ok = nj == ("bin", "Add", j_t, mk_int(1)) and (gt or lt_rev) and inb
+            ok_scan = scan_from_i and step_ok
+            if not ok_scan:
+                why.append("the partner scan must start at i and advance while j+1 < len && data[j+1] > data[i-1] (strictly)")
+        else:
+            # accepted alternative: rposition from the right with a strict comparison against the pivot
+            rp = [e for e in evs if e.extra.get("name") == "rposition"]
+            ok_scan = False
+            why.append("the swap partner %s is not found by the forward scan `while j+1 < len && data[j+1] > data[i-1]`: with repeated elements a different choice (e.g. the leftmost of equal candidates) leaves the tail unsorted and skips arrangements" % tstr(j_t)[:120])
+    key = "%s|anatomy" % fk(b)
+    if ok_outer:
+        col.ok("I7", b.loc(), key + "|outer", "i over (1..len).rev(): rightmost ascent first")
+    else:
+        col.violation("I7", key + "|outer", b.loc(), "next_permutation must look for the rightmost i with data[i-1] < data[i] ((1..len).rev())")
+    if ok_swap:
+        col.ok("I7", b.loc(), key + "|swap-reverse", "swap(i-1, j); data[i..].reverse(); true")
+    else:
+        col.violation("I7", key + "|swap-reverse", b.loc(), "; ".join(why[:2]) or "swap/reverse shape not recognised")
+    if ok_scan:
+        col.ok("I7", b.loc(), key + "|partner", "j = last index of the tail with data[j] > data[i-1] (forward scan from i, strict >)")
+    else:
+        col.violation("I7", key + "|partner", b.loc(), "; ".join(w for w in why if "partner" in w) or "partner scan not recognised")
+    if ok_wrap:
+        col.ok("I7", b.loc(), key + "|wrap", "no ascent: reverse everything, return false")
+    else:
+        col.violation("I7", key + "|wrap", b.loc(), "the last arrangement must wrap to sorted order (reverse the whole slice) and return false")
